@@ -320,6 +320,7 @@ type sim struct {
 	// concurrent bursts: history of accepted configurations, the one being
 	// applied by the (serialized) update task and the number of completed updates
 	solo     bool // probes run as the only released task
+	lastOpts *grpcgcp.GCPMultiEndpointOptions
 	cfgHist  []cfgRec
 	curUpd   int
 	updDone  int
@@ -384,7 +385,30 @@ func (s *sim) buildOpts(o OptsSpec) *grpcgcp.GCPMultiEndpointOptions {
 	if o.BadDef {
 		mo.Default = "nosuch"
 	}
+	s.lastOpts = mo
 	return mo
+}
+
+// scribbleOpts: the call that received the options has returned; the
+// application reuses its option objects - endpoint slices overwritten, map
+// emptied, default renamed. The library must not depend on them any more.
+//
+//go:norace
+func (s *sim) scribbleOpts() {
+	mo := s.lastOpts
+	if mo == nil || s.plan.Concurrent {
+		return
+	}
+	s.lastOpts = nil
+	for name, me := range mo.MultiEndpoints {
+		for i := range me.Endpoints {
+			me.Endpoints[i] = fmt.Sprintf("scribbled-%d:1", i)
+		}
+		me.RecoveryTimeout, me.SwitchingDelay = 12345*time.Hour, 54321*time.Hour
+		delete(mo.MultiEndpoints, name)
+	}
+	mo.Default = "scribbled"
+	s.res.Count("fault:caller_overwrites_its_options_after_the_call", 1)
 }
 
 //go:norace
@@ -494,6 +518,7 @@ func (s *sim) run(src *simkit.Source, logOn bool) {
 	var err error
 	c := s.call("New", 1, func() { s.gme, err = grpcgcp.NewGCPMultiEndpoint(s.buildOpts(init)) })
 	k.Quiesce()
+	s.scribbleOpts()
 	s.kernelFailure()
 	if s.stop || s.panicked(c, "NewGCPMultiEndpoint") {
 		s.finish()
@@ -889,6 +914,9 @@ func (s *sim) exec(o Op) {
 		alone := s.k.RunOnly(c.t)
 		if !alone {
 			s.k.Quiesce()
+		}
+		if c.done {
+			s.scribbleOpts()
 		}
 		s.kernelFailure()
 		if s.stop || s.panicked(c, "UpdateMultiEndpoints") {
